@@ -96,7 +96,7 @@ def replay(path):
     env = dict(os.environ); env.update(vlib.SAN_ENV)
     if h not in b:
         print("no replay binary for harness %s" % h); return 2
-    p = subprocess.run([b[h], "--replay-case", rp["case"]], stdout=subprocess.PIPE, stderr=subprocess.STDOUT, text=True, env=env)
+    p = subprocess.run([b[h], "--replay-case", rp["case"]] + (vlib.replay_opts(rp, ("--outiter", "--wmap") if h.startswith("exact") else ("--outiter",)) if h.startswith(("exact", "approx")) else []), stdout=subprocess.PIPE, stderr=subprocess.STDOUT, text=True, env=env)
     print(p.stdout[-4000:])
     if p.returncode in (67, 1) or "ERROR: AddressSanitizer" in p.stdout or "runtime error" in p.stdout or "LeakSanitizer" in p.stdout:
         print("VIOLATION property=C07 replay=%s" % path)
